@@ -26,6 +26,7 @@ from ..index import ClassInfo, FuncInfo
 from ..oracles import load
 from ..report import Registry, chain, sub
 from ._helpers_na_c import ClassVal, FuncVal, Inst, Lite, ModelRaise, Unsupported
+from ._helpers_str2_z1 import LiteSQL, ordered_column_groups
 
 R = Registry(
     "C40",
@@ -41,10 +42,15 @@ R = Registry(
         "loads through another one hands the option / its criteria on at the delegating call; (R4) the deferred "
         "column loader keeps primary key and discriminator columns in the SELECT whenever a loader option is present, "
         "honours undefer_group / only_load_props, and the undeferred column loader adds every column it represents "
-        "(setup_query run on models).  These are clauses of C40, not the behaviour."
+        "(setup_query run on models); (R5) every ordered group of key columns the selectin loader's query-info "
+        "builders return is in the order of the primary key whose identity-key tuples it is compared with (builders "
+        "run on a model whose join condition lists the pairs in another order); (R6) the ORM SELECT compile state "
+        "decides to nest the statement for each documented row-limiting method (limit / offset / fetch) alone when "
+        "the joined collection loader has raised its flags (decision run on a model).  These are clauses of C40, not "
+        "the behaviour."
     ),
     not_decided=(
-        "equality of result rows and object graphs across strategy assignments (LIMIT/OFFSET wrapping, DISTINCT, "
+        "equality of result rows and object graphs across strategy assignments (the form of the LIMIT/OFFSET wrapping, DISTINCT, "
         "inheritance, yield_per, populate_existing, identity map shortcuts), the content of the SQL each strategy "
         "emits, with_loader_criteria() (applied by the ORM compile state for every statement), contains_eager "
         "(the user supplies the SQL), cache-key aspects (C02)."
@@ -862,9 +868,421 @@ def r4(ctx):
     ctx.functions_analysed.update(L.functions_run)
 
 
+# ============================================================================================ R5: key column order
+
+def _col(label: str) -> Inst:
+    c = Inst(None, {}, label=label)
+    c.model = True
+    return c
+
+
+def _builders_called_by_init(fam: "Family", cls: ClassInfo) -> List[FuncInfo]:
+    """the member's own argument-less methods that its constructor calls on `self` (through aliases of nothing:
+    the call graph of __init__, followed one level through own helpers)"""
+    own = {}
+    for k in reversed(fam.own_classes(cls)):
+        own.update(k.methods)
+    init = own.get("__init__")
+    if init is None:
+        return []
+    seen, todo, out = set(), [init], []
+    while todo:
+        f = todo.pop()
+        for n in ast.walk(f.node):
+            if isinstance(n, ast.Call) and isinstance(n.func, ast.Attribute) and isinstance(n.func.value, ast.Name) \
+                    and n.func.value.id == "self" and n.func.attr in own and n.func.attr not in seen:
+                seen.add(n.func.attr)
+                g = own[n.func.attr]
+                a = g.node.args
+                if len(a.posonlyargs + a.args) == 1 and not n.args and not n.keywords:
+                    out.append(g)
+                    todo.append(g)
+    return sorted(out, key=lambda g: g.name)
+
+
+@R.rule("C40-R5", floor=6, template="T-BOOL",
+        desc="selectinload: every ordered group of key columns a query-info builder of the IN loader returns (the list "
+             "of key columns, the arguments of the tuple that is compared with IN, the parent attributes the related "
+             "identity is read from) is in the order of the primary key whose identity-key tuples it is compared with "
+             "-- builders (the argument-less own methods the strategy's constructor calls) run on a model whose join "
+             "condition lists the column pairs in another order than the primary key")
+def r5(ctx):
+    ix = ctx.index
+    fam = Family(ctx)
+    o = load("loader_option_api.json")
+    ctx.require("selectinload" in fam.members, "C40-R5: selectinload() is not a documented loading option any more")
+    cls = fam.members["selectinload"]
+    builders = _builders_called_by_init(fam, cls)
+    ctx.require(builders, f"C40-R5: the constructor of {cls.key} calls no argument-less builder of its own")
+    inspect_key = "inspection.py::inspect"
+    ctx.require(ix.has(inspect_key), "C40-R5: sqlalchemy.inspect() not found")
+
+    def scenarios():
+        # parent primary key (P1, P2); related mapper primary key (M1, M2)
+        P1, P2, E1 = _col("parent.pk1"), _col("parent.pk2"), _col("parent_sub.pk1")
+        R1, R2 = _col("child.fk1"), _col("child.fk2")
+        S1, T1 = _col("secondary.child_id"), _col("child.id")
+        M1, M2 = _col("related.pk1"), _col("related.pk2")
+        L1, L2 = _col("parent.fk1"), _col("parent.fk2")
+        base_corr = {id(R1): P1, id(R2): P2, id(P1): P1, id(P2): P2, id(E1): P1, id(M1): M1, id(M2): M2,
+                     id(L1): M1, id(L2): M2}
+        yield ("pairs-in-reverse-key-order", [(P2, R2), (P1, R1)], {}, (P1, P2), (M1, M2), {M2: L2, M1: L1}, base_corr)
+        yield ("pairs-in-reverse-key-order+secondary-pair", [(S1, T1), (P2, R2), (P1, R1)], {}, (P1, P2), (M1, M2),
+               {M2: L2, M1: L1}, {**base_corr, id(S1): None, id(T1): None})
+        yield ("pair-on-equivalent-column", [(P2, R2), (E1, R1)], {P1: {E1}, E1: {P1}}, (P1, P2), (M1, M2),
+               {M2: L2, M1: L1}, base_corr)
+
+    ran: Dict[str, int] = {}
+    for sid, pairs, equivs, ppk, mpk, equated, corr in scenarios():
+        for b in builders:
+            L = LiteSQL(ix)
+            corr = dict(corr)
+            keep = []
+
+            def adapted(col, *a, _corr=corr, _keep=keep, **k):
+                if not isinstance(col, Inst) or id(col) not in _corr:
+                    raise Unsupported("the alias model is asked to adapt something that is not a model column")
+                n = _col(f"alias({col.label})")
+                _keep.append(n)
+                _corr[id(n)] = _corr[id(col)]
+                return n
+
+            def inspected(interp, args, kwargs, _adapted=adapted):
+                insp = Inst(None, {}, label="inspect(alias)")
+                from ._helpers_na_c import PyStub
+                insp.default_attr = lambda a: PyStub(_adapted, a)      # any adaption method: column -> its counterpart
+                return insp
+
+            L.func_stubs[inspect_key] = inspected
+            lazy = Inst(None, {"_equated_columns": dict(equated)}, label="lazyloader")
+            lazy.default_attr = lambda a: None
+            prop = Inst(None, {"_join_condition": Inst(None, {"local_remote_pairs": list(pairs)}, label="join_condition")},
+                        label="relationship")
+            prop.stubs["_get_strategy"] = lambda key, _lazy=lazy: _lazy
+            prop.default_attr = lambda a: None
+            parent = Inst(None, {"primary_key": tuple(ppk), "_equivalent_columns": {k: set(v) for k, v in equivs.items()}},
+                          label="parent mapper")
+            parent.default_attr = lambda a: Inst(None, {}, label=f"parent.{a}")
+            mapper = Inst(None, {"primary_key": tuple(mpk)}, label="related mapper")
+            mapper.default_attr = lambda a: None
+            me = Inst(cls, {"parent_property": prop, "parent": parent, "mapper": mapper}, label="strategy")
+            me.model = True
+            key = f"{b.key}:key-columns-in-primary-key-order[{sid}]"
+            try:
+                got = L.call_method(me, b.name)
+            except Unsupported as e:
+                raise AnalysisError(f"C40-R5 model: {b.qualname} [{sid}]: {e}")
+            except ModelRaise as e:
+                ctx.violation(key, f"{b.qualname} raises {e} on a composite primary key whose join condition lists the "
+                                   f"pairs in another order", b.loc)
+                continue
+            ctx.functions_analysed.update(L.functions_run)
+            groups = ordered_column_groups(got, lambda v: isinstance(v, Inst) and id(v) in corr)
+            if not groups:
+                continue          # the builder returns no group of key columns (not a query-info builder)
+            ran[b.key] = ran.get(b.key, 0) + 1
+            problems = []
+            for what, g in groups:
+                mapped = [corr[id(c)] for c in g]
+                if any(m is None for m in mapped):
+                    problems.append(f"{what}: {[c.label for c in g]} contains a column that is not paired with a key column")
+                    continue
+                want = list(ppk) if all(any(m is p for p in ppk) for m in mapped) else \
+                    (list(mpk) if all(any(m is p for p in mpk) for m in mapped) else None)
+                if want is None:
+                    problems.append(f"{what}: {[c.label for c in g]} mixes columns of two keys")
+                elif len(mapped) != len(want) or any(a is not b_ for a, b_ in zip(mapped, want)):
+                    problems.append(f"{what} is {[c.label for c in g]}, i.e. the counterparts of "
+                                    f"{[m.label for m in mapped]}; identity keys are tuples in primary key order "
+                                    f"{[p.label for p in want]}")
+            ctx.check(not problems, key,
+                      "key columns are not in primary key order: " + "; ".join(problems) + " -- the IN parameters / the "
+                      "lookup of loaded rows pair identity-key tuples with these columns positionally, so selectinload "
+                      "attaches the rows of another parent (other strategies are unaffected)",
+                      f"{len(groups)} ordered group(s) of key columns follow the primary key", b.loc)
+    ctx.require(len(ran) >= 2, f"C40-R5: only {len(ran)} builder(s) of {cls.key} returned key column groups on the model")
+
+
+# ============================================================================================ R6: row limits + joined collections
+
+def _members_reading(cls: ClassInfo, mro: List[ClassInfo], flags: Set[str]) -> List[FuncInfo]:
+    """minimal members (methods / properties found through the MRO) whose code -- followed through `self.<member>`
+    references -- reads every one of `flags` on self"""
+    members: Dict[str, FuncInfo] = {}
+    for k in reversed(mro):
+        for n, f in k.methods.items():
+            if not f.type_only:
+                members[n] = f
+    direct: Dict[str, Set[str]] = {}
+    refs: Dict[str, Set[str]] = {}
+    for n, f in members.items():
+        reads = {x.attr for x in ast.walk(f.node) if isinstance(x, ast.Attribute) and isinstance(x.ctx, ast.Load)
+                 and isinstance(x.value, ast.Name) and x.value.id == "self"}
+        direct[n] = reads & flags
+        refs[n] = (reads & set(members)) - {n}
+    closure: Dict[str, Set[str]] = {}
+
+    def reach(n, seen):
+        if n in closure:
+            return closure[n]
+        out = set(direct[n])
+        for m in refs[n]:
+            if m not in seen:
+                out |= reach(m, seen | {m})
+        closure[n] = out
+        return out
+
+    covering = [n for n in members if reach(n, {n}) >= flags and flags]
+    out = []
+    for n in covering:
+        below = set()
+        todo = list(refs[n])
+        while todo:
+            m = todo.pop()
+            if m not in below:
+                below.add(m)
+                todo.extend(refs[m])
+        if not (below & set(covering)):
+            out.append(members[n])
+    return out
+
+
+@R.rule("C40-R6", floor=4, template="T-BOOL",
+        desc="joined eager loading of a collection and row limits: the ORM SELECT compile state's nesting decision (the "
+             "member that reads every flag the joined loader raises on the compile state), run on a model in which the "
+             "joined collection loader has raised its flags, answers yes for each documented row-limiting method of "
+             "SELECT (limit / offset / fetch, oracle) applied alone -- so that the window counts parent rows under "
+             "joinedload as it does under every other strategy -- and no for a statement without any of them")
+def r6(ctx):
+    ix = ctx.index
+    o = load("select_row_limiting_api.json")
+    fam = Family(ctx)
+    joined = fam.members.get(o["collection_joining_option"])
+    ctx.require(joined is not None, "C40-R6: joinedload() is not a documented loading option any more")
+    # flags the joined loader raises on the compile state it is handed
+    flags: Set[str] = set()
+    for k in fam.own_classes(joined):
+        for fn in ast.walk(k.node):
+            if not isinstance(fn, (ast.FunctionDef, ast.AsyncFunctionDef)):
+                continue
+            params = {a.arg for a in fn.args.posonlyargs + fn.args.args + fn.args.kwonlyargs} - {"self", "cls"}
+            for n in ast.walk(fn):
+                if isinstance(n, ast.Assign) and isinstance(n.value, ast.Constant) and n.value.value is True:
+                    for t in n.targets:
+                        if isinstance(t, ast.Attribute) and isinstance(t.value, ast.Name) and t.value.id in params:
+                            flags.add(t.attr)
+    ctx.require(flags, f"C40-R6: {joined.key} raises no flag on the compile state")
+    sel_state = ix.cls("sql/selectable.py::SelectState")
+    cands = []
+    for c in ix.all_classes():
+        if not c.module.relpath.startswith("orm/"):
+            continue
+        m = fam.mro(c)
+        if not any(x is sel_state for x in m):
+            continue
+        mine = {fl for fl in flags if any(fl in k.assigns for k in m)}
+        if mine:
+            cands.append((c, mine))
+    ctx.require(cands, f"C40-R6: no ORM SELECT compile state class declares any of the flags {sorted(flags)}")
+    most = max(len(fl) for _c, fl in cands)
+    cands = [(c, fl) for c, fl in cands if len(fl) == most]      # flags raised on other objects (query context) drop out
+    gs = ix.cls(o["class"])
+    written: Dict[str, Set[str]] = {}
+    for mname in o["row_limiting_methods"]:
+        f = gs.methods.get(mname)
+        ctx.require(f is not None, f"C40-R6: {gs.key}.{mname} (documented row-limiting method) not found")
+        attrs = set()
+        for n in ast.walk(f.node):
+            if isinstance(n, (ast.Assign, ast.AnnAssign)) and n.value is not None \
+                    and not (isinstance(n.value, ast.Constant) and n.value.value is None):
+                for t in (n.targets if isinstance(n, ast.Assign) else [n.target]):
+                    if isinstance(t, ast.Attribute) and isinstance(t.value, ast.Name) and t.value.id == "self":
+                        attrs.add(t.attr)
+        ctx.require(attrs, f"C40-R6: {gs.key}.{mname} stores nothing on the statement")
+        written[mname] = attrs
+        ctx.functions_analysed.add(f.key)
+    for cs, flags in cands:
+        deciders = _members_reading(cs, fam.mro(cs), flags)
+        ctx.require(deciders, f"C40-R6: no member of {cs.key} reads the flags {sorted(flags)}")
+        for d in deciders:
+            L = LiteSQL(ix)
+
+            def decide(stmt_attrs):
+                stmt = Inst(None, dict(stmt_attrs), label="statement")
+                stmt.default_attr = lambda a: None
+                me = Inst(cs, dict({fl: True for fl in flags}, select_statement=stmt, statement=stmt), label="compile_state")
+                me.default_attr = lambda a: None
+                v = L.getattr(me, d.name)
+                if isinstance(v, (FuncVal,)) or type(v).__name__ == "Bound":
+                    v = L.call(v, [], {})
+                return L.truth(v)
+
+            try:
+                plain = decide({})
+                ctx.check(not plain, f"{d.key}:no-row-limit-no-nesting",
+                          "the statement is nested although it has no row limit, DISTINCT or GROUP BY",
+                          "not nested", d.loc)
+                for mname, attrs in written.items():
+                    clause = Inst(None, {}, label=f"<{mname} value>")
+                    clause.default_attr = lambda a: None
+                    yes = decide({a: clause for a in attrs})
+                    ctx.check(yes, f"{d.key}:row-limit-with-joined-collection-nests[{mname}]",
+                              f"a SELECT with .{mname}() (statement attributes {sorted(attrs)}) and a joined eager loaded "
+                              f"collection (compile state flags {sorted(flags)} raised) is not wrapped in a subquery: the "
+                              f"row window is applied to the joined parent x collection rows, so joinedload returns "
+                              f"other parents / truncated collections than lazyload, selectinload, subqueryload do",
+                              "nested", d.loc)
+            except Unsupported as e:
+                raise AnalysisError(f"C40-R6 model: {d.qualname}: {e}")
+            except ModelRaise as e:
+                ctx.violation(f"{d.key}:no-row-limit-no-nesting", f"{d.qualname} raises {e} on the model", d.loc)
+            ctx.functions_analysed.update(L.functions_run)
+            ctx.functions_analysed.add(d.key)
+
+
 # ============================================================================================ self-test battery
 
 _MAP = "orm/mapper.py"
+
+# ---- C40-R5 (selectin key column order) -----------------------------------------------------------------
+_CTX = "orm/context.py"
+R.mutant("r5-omit-join-columns-in-join-condition-order", STRAT,        # essence of seeded C40_1
+         sub("""            pk_to_fk[col] for col in self.parent.primary_key if col in pk_to_fk
+""", """            pk_to_fk[col] for col in pk_to_fk if col in self.parent.primary_key
+"""), "C40-R5")
+R.mutant("r5-m2o-lookup-columns-in-dictionary-order", STRAT,
+         sub("""        lookup_cols = [lazyloader._equated_columns[pk] for pk in pk_cols]""",
+             """        lookup_cols = list(lazyloader._equated_columns.values())"""), "C40-R5")
+R.mutant("r5-join-in-tuple-built-from-the-end", STRAT,
+         sub("""            pa_insp._adapt_element(col) for col in self.parent.primary_key
+        ]
+        if len(pk_cols) > 1:
+            in_expr = sql.tuple_(*pk_cols)""", """            pa_insp._adapt_element(col) for col in self.parent.primary_key
+        ]
+        if len(pk_cols) > 1:
+            in_expr = sql.tuple_(*pk_cols[::-1])"""), "C40-R5")
+R.mutant("benign-r5-omit-join-as-loops-with-renamed-locals", STRAT,
+         sub("""        pk_to_fk = dict(
+            self.parent_property._join_condition.local_remote_pairs
+        )
+        pk_to_fk.update(
+            (equiv, pk_to_fk[k])
+            for k in list(pk_to_fk)
+            for equiv in self.parent._equivalent_columns.get(k, ())
+        )
+
+        pk_cols = fk_cols = [
+            pk_to_fk[col] for col in self.parent.primary_key if col in pk_to_fk
+        ]
+""", """        pairs = self.parent_property._join_condition.local_remote_pairs
+        same_as = self.parent._equivalent_columns
+        remote_of = {}
+        for near, far in pairs:
+            remote_of[near] = far
+        for near, far in pairs:
+            for other in same_as.get(near, ()):
+                remote_of[other] = far
+
+        fk_cols = []
+        for key_col in self.parent.primary_key:
+            if key_col not in remote_of:
+                continue
+            fk_cols.append(remote_of[key_col])
+        pk_cols = fk_cols
+"""), None)
+R.mutant("benign-r5-m2o-lookup-through-helper", STRAT,
+         chain(sub("""        lazyloader = self.parent_property._get_strategy((("lazy", "select"),))
+        lookup_cols = [lazyloader._equated_columns[pk] for pk in pk_cols]
+""", """        lookup_cols = self._parent_side_of(pk_cols)
+"""),
+               sub("""    def _init_for_omit_join_m2o(self):""", """    def _parent_side_of(self, key_cols):
+        equated = self.parent_property._get_strategy(
+            (("lazy", "select"),)
+        )._equated_columns
+        return [equated[c] for c in key_cols]
+
+    def _init_for_omit_join_m2o(self):""")), None)
+
+# ---- C40-R6 (row limits and joined collections) ---------------------------------------------------------
+R.mutant("r6-offset-alone-does-not-nest", _CTX,                         # essence of seeded C40_2
+         sub("""            or (
+                kwargs.get("offset_clause") is not None
+                and self.multi_row_eager_loaders
+            )
+""", ""), "C40-R6")
+R.mutant("r6-fetch-key-misspelt-by-the-decision", _CTX,
+         sub("""                kwargs.get("fetch_clause") is not None
+                and self.multi_row_eager_loaders""", """                kwargs.get("fetch") is not None
+                and self.multi_row_eager_loaders"""), "C40-R6")
+R.mutant("r6-joined-loader-does-not-announce-its-joins", STRAT,
+         sub("""            compile_state.eager_adding_joins = True
+""", """            pass
+"""), "C40-R6")
+R.mutant("benign-r6-row-window-folded-into-one-local", _CTX,
+         sub("""        return (
+            (
+                kwargs.get("limit_clause") is not None
+                and self.multi_row_eager_loaders
+            )
+            or (
+                kwargs.get("offset_clause") is not None
+                and self.multi_row_eager_loaders
+            )
+            or (
+                kwargs.get("fetch_clause") is not None
+                and self.multi_row_eager_loaders
+            )
+            or kwargs.get("distinct", False)""", """        windowed = any(
+            kwargs.get(part) is not None
+            for part in ("limit_clause", "offset_clause", "fetch_clause")
+        )
+        multiplies_rows = self.multi_row_eager_loaders
+
+        return (
+            (windowed and multiplies_rows)
+            or kwargs.get("distinct", False)"""), None)
+R.mutant("benign-r6-row-window-in-helper-property-inverted-exit", _CTX,
+         sub("""        if not self.eager_adding_joins:
+            return False
+
+        return (
+            (
+                kwargs.get("limit_clause") is not None
+                and self.multi_row_eager_loaders
+            )
+            or (
+                kwargs.get("offset_clause") is not None
+                and self.multi_row_eager_loaders
+            )
+            or (
+                kwargs.get("fetch_clause") is not None
+                and self.multi_row_eager_loaders
+            )
+            or kwargs.get("distinct", False)
+            or kwargs.get("distinct_on", ())
+            or kwargs.get("group_by", False)
+        )
+""", """        if self.eager_adding_joins:
+            if self._window_counts_joined_rows:
+                return True
+            return bool(
+                kwargs.get("distinct", False)
+                or kwargs.get("distinct_on", ())
+                or kwargs.get("group_by", False)
+            )
+        return False
+
+    @property
+    def _window_counts_joined_rows(self):
+        if not self.multi_row_eager_loaders:
+            return False
+        stmt_parts = self._select_args
+        if stmt_parts.get("limit_clause") is not None:
+            return True
+        if stmt_parts.get("fetch_clause") is not None:
+            return True
+        return stmt_parts.get("offset_clause") is not None
+"""), None)
 
 # ---- C40-R1 (vocabulary) -------------------------------------------------------------------------------
 R.mutant("r1-selectin-registered-under-other-name", STRAT,
